@@ -75,8 +75,13 @@ func (t *Ticker) start() {
 		t.handlersMutex.Unlock()
 	}
 
-	for ctx := range t.handlers {
-		delete(t.handlers, ctx)
+	// The handlers map is shared with onTick, which can still be called
+	// after the ticks channel got closed.
+	t.handlersMutex.Lock()
+	defer t.handlersMutex.Unlock()
+
+	for id := range t.handlers {
+		delete(t.handlers, id)
 	}
 }
 
